@@ -708,4 +708,163 @@ def gen_window(repo: str) -> str:
     return "\n".join(out) + "\n"
 
 
-GENERATORS = {"Window": gen_window}
+# ----------------------------------------------------------------------------------------------
+# Gen.C08Chain  <- sqlframe/base/dataframe.py: how a window column enters a chain
+# ----------------------------------------------------------------------------------------------
+
+OBC = "Gen.C08Chain"
+
+
+def _norm(src: str) -> str:
+    return re.sub(r"\s+", " ", src).strip()
+
+
+def _with_column(df: ast.ClassDef) -> t.List[str]:
+    ob = f"{OBC}.withColumn"
+    fn = find_func(df.body, "withColumn")
+    params = [a.arg for a in fn.args.args]
+    if params != ["self", "colName", "col"]:
+        raise Untranslatable(ob, f"unexpected parameters {params}")
+    lines = _body_lines(fn)
+    if lines == ["return self.withColumns.__wrapped__(self, {colName: col})"]:
+        wrapped = True
+    elif lines == ["return self.withColumns({colName: col})"]:
+        wrapped = False
+    else:
+        raise Untranslatable(ob, f"body shape not recognised: {lines[:3]}")
+    return [
+        "/-- `withColumn(name, col)` runs the *body* of `withColumns` (`withColumns.__wrapped__(self, {name: col})`);",
+        "    false: it calls `self.withColumns(...)`, i.e. passes through that method's decorator a second time -/",
+        f"def withColumnViaWrapped : Bool := {str(wrapped).lower()}",
+    ]
+
+
+def _with_columns(df: ast.ClassDef) -> t.List[str]:
+    ob = f"{OBC}.withColumns"
+    fn = find_func(df.body, "withColumns")
+    body = [st for st in fn.body if not (isinstance(st, ast.Expr) and isinstance(st.value, ast.Constant))]
+    lines = [ast.unparse(st) for st in body]
+    # the select list starts as the outer select columns of the open block
+    need = [
+        "existing_cols = self._get_outer_select_columns(self.expression)",
+        "existing_col_names = [x.alias_or_name for x in existing_cols]",
+        "select_columns = existing_cols",
+    ]
+    pos = [lines.index(x) if x in lines else -1 for x in need]
+    if -1 in pos or pos != sorted(pos):
+        raise Untranslatable(ob, "the select list is not started from `_get_outer_select_columns(self.expression)`")
+    loops = [st for st in body if isinstance(st, ast.For)]
+    if len(loops) != 1 or body.index(loops[0]) < pos[-1]:
+        raise Untranslatable(ob, "expected one loop over the new columns after the select list is started")
+    loop = loops[0]
+    if ast.unparse(loop.target) != "(col, (col_value, display_name))" or ast.unparse(loop.iter) != "col_map.items()":
+        raise Untranslatable(ob, f"loop header not recognised: for {ast.unparse(loop.target)} in {ast.unparse(loop.iter)}")
+    lb = [ast.unparse(st) for st in loop.body[:-1]]
+    if [_norm(x) for x in lb] != [
+        "column_name = col.alias_or_name",
+        "existing_col_index = existing_col_names.index(column_name) if column_name in existing_col_names else None",
+    ]:
+        raise Untranslatable(ob, f"loop body not recognised: {lb}")
+    branch = loop.body[-1]
+    if not isinstance(branch, ast.If) or ast.unparse(branch.test) != "existing_col_index is not None" or len(branch.body) != 1 or len(branch.orelse) != 1:
+        raise Untranslatable(ob, "expected `if existing_col_index is not None: ... else: ...` with one statement on each side")
+    item = "col_value.alias(display_name)"
+    ex = _norm(ast.unparse(branch.body[0]))
+    if ex == f"select_columns[existing_col_index] = {item}":
+        in_place = True
+    elif ex == f"select_columns.append({item})":
+        in_place = False
+    else:
+        raise Untranslatable(ob, f"what happens to an existing column is not recognised: {ex!r}")
+    nw = _norm(ast.unparse(branch.orelse[0]))
+    if nw == f"select_columns.append({item})":
+        at_end = True
+    elif nw == f"select_columns.insert(0, {item})":
+        at_end = False
+    else:
+        raise Untranslatable(ob, f"where a new column goes is not recognised: {nw!r}")
+    last = _norm(lines[-1])
+    if last == "return df.select.__wrapped__(df, *select_columns, skip_update_display_name_mapping=True)":
+        sel_wrapped = True
+    elif last == "return df.select(*select_columns, skip_update_display_name_mapping=True)":
+        sel_wrapped = False
+    else:
+        raise Untranslatable(ob, f"final select not recognised: {last[:80]!r}")
+    # nothing between the loop and the final select may touch the list again
+    tail = lines[body.index(loop) + 1 : -1]
+    if any("select_columns" in x or "existing_cols" in x for x in tail):
+        raise Untranslatable(ob, "the select list is modified again after the loop")
+    return [
+        "/-- `withColumns`: a name that already is an outer select column is replaced *at its position*",
+        "    (false: the new item is appended and the old column stays) -/",
+        f"def withColumnsExistingInPlace : Bool := {str(in_place).lower()}",
+        "/-- `withColumns`: a new name goes to the end of the select list (false: to the front) -/",
+        f"def withColumnsNewAtEnd : Bool := {str(at_end).lower()}",
+        "/-- `withColumns` ends in the *body* of `select` (`select.__wrapped__`); false: in `df.select(...)`, through its decorator -/",
+        f"def withColumnsSelectViaWrapped : Bool := {str(sel_wrapped).lower()}",
+    ]
+
+
+def _convert_leaf(df: ast.ClassDef) -> t.List[str]:
+    ob = f"{OBC}._convert_leaf_to_cte"
+    fn = find_func(df.body, "_convert_leaf_to_cte")
+    lines = [_norm(x) for x in _body_lines(fn)]
+    need_tail = [
+        "sel_columns = df._get_outer_select_columns(cte_expression)",
+        "new_expression = new_expression.from_(cte_name).select(*[x.expression for x in sel_columns])",
+        "return df.copy(expression=new_expression, sequence_id=sequence_id)",
+    ]
+    if lines[-3:] != need_tail:
+        raise Untranslatable(ob, f"the new block is not `SELECT <outer columns of the CTE> FROM <cte>`: {lines[-3:]}")
+    start = [x for x in lines if x.startswith("new_expression = df._add_ctes_to_expression(")]
+    if len(start) != 1:
+        raise Untranslatable(ob, "expected one `new_expression = df._add_ctes_to_expression(...)`")
+    if start[0] == "new_expression = df._add_ctes_to_expression(exp.Select(), expression.ctes + [cte_expression])":
+        fresh = True
+    elif start[0] == "new_expression = df._add_ctes_to_expression(expression, expression.ctes + [cte_expression])":
+        fresh = False
+    else:
+        raise Untranslatable(ob, f"start of the new block not recognised: {start[0][:100]!r}")
+    if not any(x.startswith("cte_expression, cte_name = df._create_cte_from_expression(expression=expression,") for x in lines):
+        raise Untranslatable(ob, "the whole open block is not what becomes the CTE")
+    return [
+        "/-- `_convert_leaf_to_cte` builds the new open block from an empty `exp.Select()`: it carries no WHERE / DISTINCT /",
+        "    ORDER BY / LIMIT of the block it froze (false: it is built from the old expression and keeps them) -/",
+        f"def convertLeafFreshSelect : Bool := {str(fresh).lower()}",
+    ]
+
+
+def _where_body(df: ast.ClassDef) -> t.List[str]:
+    ob = f"{OBC}.where"
+    fn = find_func(df.body, "where")
+    lines = [_norm(x) for x in _body_lines(fn)]
+    src = " ".join(lines)
+    if "_convert_leaf_to_cte" in src or "last_op" in src or ".ctes" in src or ".with_" in src:
+        raise Untranslatable(ob, "the body takes block decisions of its own (CTE / last_op)")
+    if not lines or not re.fullmatch(r"return self\.copy\(expression=self\.expression\.where\(col\.expression(, append=(True|False))?\)\)", lines[-1]):
+        raise Untranslatable(ob, f"the predicate does not go into the WHERE of the block handed to the body: {lines[-1][:100] if lines else ''!r}")
+    aliases = [n for n in df.body if isinstance(n, ast.Assign) and ast.unparse(n.value) == "where"]
+    names = sorted(ast.unparse(a.targets[0]) for a in aliases)
+    if names != ["filter"]:
+        raise Untranslatable(ob, f"expected `filter = where`, found aliases {names}")
+    return [
+        "/-- `where` adds its predicate to the WHERE of the very block its decorator handed to it (asserted shape of the body:",
+        "    `return self.copy(expression=self.expression.where(col.expression))`, no CTE / last_op decision inside); `filter = where` -/",
+        "def whereIntoHandedBlock : Bool := true",
+    ]
+
+
+def gen_chain(repo: str) -> str:
+    dmod = parse(repo, "sqlframe/base/dataframe.py")
+    df = find_class(dmod, "BaseDataFrame")
+    out = [HEADER, "namespace Sqlframe.Gen.WinChain", ""]
+    out += _with_column(df)
+    out += _with_columns(df)
+    out += _convert_leaf(df)
+    out += _where_body(df)
+    out.append("")
+    out.append("end Sqlframe.Gen.WinChain")
+    return "\n".join(out) + "\n"
+
+
+GENERATORS = {"Window": gen_window, "C08Chain": gen_chain}
